@@ -162,9 +162,10 @@ public:
 
         QString rotatedName;
         if (suffix.isEmpty()) {
-            rotatedName = QStringLiteral("%1.%2.%3").arg(baseName, dateStr).arg(index);
+            rotatedName = QStringLiteral("%1.%2.%3").arg(baseName, dateStr, QString::number(index));
         } else {
-            rotatedName = QStringLiteral("%1.%2.%3.%4").arg(baseName, dateStr).arg(index).arg(suffix);
+            rotatedName = QStringLiteral("%1.%2.%3.%4")
+                                  .arg(baseName, dateStr, QString::number(index), suffix);
         }
 
         return QDir(baseDir()).filePath(rotatedName);
